@@ -6,7 +6,7 @@ import ast
 from ..absval import Lin, Undecided, linform
 from ..core import (AnalysisError, alpha, call_name, dotted, is_const, local_defs, norm, origin, parent_map,
                     walk_local, kwarg)
-from ..facts import guards_of, returns_of, enclosing_loops, default_of
+from ..facts import guards_of, returns_of, enclosing_loops, default_of, if_leaves
 from ..rules import walk as W
 from ..pattern import pmatch, pfind, pall
 
@@ -208,6 +208,8 @@ def formulas(rep):
     CX, CG = by_idx.get((0,)), by_idx.get((2,))
     nl = origin(defs, ast.Name(id=NL, ctx=ast.Load()))
     ok = isinstance(nl, ast.Call) and call_name(nl) == "number_connected_components" and CG is not None and norm(nl.args[0]) == f"{CG}.to_undirected()"
+    # the weakly connected components of a directed graph ARE the connected components of its undirected version
+    ok = ok or (isinstance(nl, ast.Call) and call_name(nl) == "number_weakly_connected_components" and CG is not None and nl.args and norm(nl.args[0]) == CG)
     rep.ob("O19.2", "SHAPE", fi, ok, nl, "linkage classes = connected components of the undirected complex graph")
     nc = origin(defs, ast.Name(id=NC, ctx=ast.Load()))
     rep.ob("O19.2", "SHAPE", fi, CX is not None and norm(nc) == f"len({CX})", nc, "n_complexes counts the distinct complexes")
@@ -310,7 +312,31 @@ def definitions(rep):
     alls = [origin(defs, r.value) for r in rets]
     alls = [a_ for a_ in alls if isinstance(a_, ast.Call) and norm(a_.func) == "all" and len(a_.args) == 1 and isinstance(a_.args[0], (ast.GeneratorExp, ast.ListComp))
             and len(a_.args[0].generators) == 1]
-    rep.need("SHAPE", len(alls), 1, "component loop in _is_weakly_reversible")
+    if not alls:
+        # counting form: every weak component is a disjoint union of strong ones, so "each weak component is strongly connected" <=> the two counts agree
+        cnt = []
+        for r in rets:
+            for leaf in if_leaves(origin(defs, r.value)) if r.value is not None else []:
+                if isinstance(leaf, ast.Constant):
+                    continue
+                m_ = pmatch("$a == $b", leaf)
+                if m_:
+                    srcs = {call_name(origin(defs, ast.Name(id=m_[k_], ctx=ast.Load()))) if isinstance(origin(defs, ast.Name(id=m_[k_], ctx=ast.Load())), ast.Call) else None for k_ in ("a", "b")}
+                    args = {norm(origin(defs, ast.Name(id=m_[k_], ctx=ast.Load())).args[0]) for k_ in ("a", "b")
+                            if isinstance(origin(defs, ast.Name(id=m_[k_], ctx=ast.Load())), ast.Call) and origin(defs, ast.Name(id=m_[k_], ctx=ast.Load())).args}
+                    cnt.append(srcs == {"number_strongly_connected_components", "number_weakly_connected_components"} and args == {P})
+                else:
+                    cnt.append(None)
+        if cnt and all(c is True for c in cnt):
+            rep.ob("O19.2", "SHAPE", fi, True, rets[-1], "weak reversibility: the number of strong components equals the number of weak components (each linkage class strongly connected)")
+        else:
+            rep.ob("O19.2", "SHAPE", fi, None, rets[-1] if rets else "return", "weak reversibility is decided in a way this rule does not read (neither the per-class loop nor the component counts)")
+    else:
+        _per_class(rep, fi, P, defs, rets, alls)
+    _deficiency_zero(rep)
+
+
+def _per_class(rep, fi, P, defs, rets, alls):
     gen = alls[0].args[0]
     g0 = gen.generators[0]
     it = origin(defs, g0.iter)
@@ -324,6 +350,9 @@ def definitions(rep):
     rep.ob("O19.2", "SHAPE", fi, ok, gen.elt, "each linkage class must be strongly connected as a directed subgraph")
     okr = len(rets) == 1 and sc is not None
     rep.ob("O19.2", "SHAPE", fi, okr, rets[-1] if rets else "return", "False exactly when some class is not strongly connected, True otherwise")
+
+
+def _deficiency_zero(rep):
     d0 = rep.f(DF, A + "check_deficiency_zero")
     rets = returns_of(d0.node)
     # a decision function of (deficiency, weakly reversible): tabulate it
